@@ -76,18 +76,8 @@ def reads_before_write(body, field):
     return False
 
 
-def run(env, rep):
+def suspend_paths(env, rep, rule, m):
     prog, ctx = env.prog, env.ctx
-    rep.explanation = (
-        "R1: on every path of every deserializer stage function that returns 'not enough bytes' no byte is consumed, the stage is "
-        "not stored, and any other field written is dead at stage entry (that stage function writes it before reading it on every "
-        "path, the stage is unchanged so the same function runs next, and no other public method reads it); R2: get_next_message "
-        "appends the caller's bytes to the buffer before the first stage runs and nothing else appends to it; R3: in both sessions "
-        "the slice passed to get_next_message is the caller's bytes on the first call and provably empty on every later iteration.  "
-        "Not decided: equality of outputs under two partitions as such.")
-    m = chunk.ChunkModel(env, rep, "C15.anchors")
-    if not m.ok:
-        return
     gn = m.b["get_next"]
     pub_methods = [b for b in prog.bodies.values() if b.kind == "assoc" and b.impl and b.impl.get("trait") is None and b.impl["self_ty"] == gn.impl["self_ty"] and b.is_pub and b.key != gn.key]
     n_susp = 0
@@ -120,10 +110,26 @@ def run(env, rep):
                 others = [b.pretty.split("::")[-1] for b in pub_methods if reads_before_write(b, top)]
                 if live or others:
                     problems.append("it has already written %s, whose old value %s" % (f, "the same stage function reads when it is re-entered" if live else "is read by " + ", ".join(others)))
-            rep.check("C15.R1", "%s|suspend-no-effect" % name, not problems, "returning NotEnoughBytes leaves no observable effect",
+            rep.check(rule, "%s|suspend-no-effect" % name, not problems, "returning NotEnoughBytes leaves no observable effect",
                       "%s can return 'not enough bytes' although %s; when the call is repeated after more input arrived the result differs from delivering the bytes in one piece" % (
                           sb.pretty, "; ".join(sorted(set(problems)))), sb.span)
-    rep.floor("C15.R1", "suspend (NotEnoughBytes) paths of the stage functions", n_susp, 6)
+    rep.floor(rule, "suspend (NotEnoughBytes) paths of the stage functions", n_susp, 6)
+
+
+def run(env, rep):
+    prog, ctx = env.prog, env.ctx
+    rep.explanation = (
+        "R1: on every path of every deserializer stage function that returns 'not enough bytes' no byte is consumed, the stage is "
+        "not stored, and any other field written is dead at stage entry (that stage function writes it before reading it on every "
+        "path, the stage is unchanged so the same function runs next, and no other public method reads it); R2: get_next_message "
+        "appends the caller's bytes to the buffer before the first stage runs and nothing else appends to it; R3: in both sessions "
+        "the slice passed to get_next_message is the caller's bytes on the first call and provably empty on every later iteration.  "
+        "Not decided: equality of outputs under two partitions as such.")
+    m = chunk.ChunkModel(env, rep, "C15.anchors")
+    if not m.ok:
+        return
+    gn = m.b["get_next"]
+    suspend_paths(env, rep, "C15.R1", m)
     # ------------------------------------------------------------------ R2
     it = ctx.interp(gn.key)
     head = list(gn.loops)[0]
